@@ -213,7 +213,7 @@ package chain
 // the block's own height and timestamp (which writeBlockContext then stores: the link between a
 // block's header and its post-state metadata).
 //@ func (*Processor).createBlockContext props C11
-//@   reveal internalfees.wellFormed
+//@   reveal wellFormed
 //@   let hk = HeightKey(MetadataManager.HeightPrefix(p.metadataManager))
 //@   let tk = TimestampKey(MetadataManager.TimestampPrefix(p.metadataManager))
 // sane parent metadata and rules: no wrap in height+1 / timestamp+gap
@@ -276,7 +276,7 @@ package chain
 // root (whatever signature verification, replay protection and transaction execution do).
 //@ func (*Processor).Execute props C11
 //@   noframe
-//@   reveal internalfees.wellFormed
+//@   reveal wellFormed
 //@   let r = RuleFactory.GetRules(p.ruleFactory, b.StatelessBlock.Tmstmp)
 //@   let hk = HeightKey(MetadataManager.HeightPrefix(p.metadataManager))
 //@   let tk = TimestampKey(MetadataManager.TimestampPrefix(p.metadataManager))
@@ -291,3 +291,48 @@ package chain
 //@   ensures err == nil ==> b.StatelessBlock.Tmstmp >= stU64(parentView, str(tk)) + Rules.GetMinBlockGap(r)
 //@   ensures err == nil && len(b.StatelessBlock.Txs) == 0 ==> b.StatelessBlock.Tmstmp >= stU64(parentView, str(tk)) + Rules.GetMinEmptyBlockGap(r)
 //@   ensures err == nil ==> b.StatelessBlock.StateRoot == fst(merkledb.View.GetMerkleRoot(parentView))
+
+// ---- genesis commit (C27: metadata and fee state of the genesis state; C11: header vs state link) ----
+//@ func Rules.GetMinUnitPrice
+//@   pure
+//@ func Genesis.InitializeState
+//@   noframe
+//@   requires tstate.wf(mu) && tstate.RI(mu)
+//@   modifies mu.pendingChangedKeys[], mu.writes[], mu.allocates[], mu.ops
+//@   ensures tstate.wf(mu) && tstate.RI(mu)
+//@ func github.com/ava-labs/avalanchego/x/merkledb.Trie.NewView
+//@   noframe
+//@ func NewStatelessBlock
+//@   trusted
+//@   noframe
+//@   ensures err == nil ==> !isnil(result0) && result0.Prnt == parentID && result0.Tmstmp == timestamp && result0.Hght == height && result0.StateRoot == stateRoot
+//@ func NewExecutionBlock
+//@   trusted
+//@   noframe
+// (pointer equality does not carry contents in the pointer model: the header fields are stated one by one)
+//@   ensures !isnil(result) && !isnil(result.StatelessBlock) && result.StatelessBlock.Hght == block.Hght && result.StatelessBlock.Tmstmp == block.Tmstmp && result.StatelessBlock.StateRoot == block.StateRoot && result.StatelessBlock.Prnt == block.Prnt
+
+// NewGenesisCommit (C27): when the view is committed, the state visible through it holds height 0 and
+// timestamp 0 under the metadata keys and a fee-manager state whose unit price is the genesis rules'
+// minimum price in every dimension; the genesis block has height 0 and its state root is the root of
+// the returned view.  (C11: the header timestamp must equal the state timestamp -- tagged assertion.)
+//@ func NewGenesisCommit props C27 C11
+//@   noframe
+//@   reveal wellFormed price wf RI
+//@   let hk = str(HeightKey(MetadataManager.HeightPrefix(metadataManager)))
+//@   let tk = str(TimestampKey(MetadataManager.TimestampPrefix(metadataManager)))
+//@   let fk = str(FeeKey(MetadataManager.FeePrefix(metadataManager)))
+//@   requires hk != tk && hk != fk && tk != fk
+//@   at call 25 assert tstate.visExists(tsv, hk) && len(tstate.visVal(tsv, hk)) == 8 && be64(tstate.visVal(tsv, hk), 0) == 0
+//@   at call 25 assert tstate.visExists(tsv, tk) && len(tstate.visVal(tsv, tk)) == 8 && be64(tstate.visVal(tsv, tk), 0) == 0
+//@   at call 25 assert tstate.visExists(tsv, fk) && tstate.visVal(tsv, fk) == str(feeManager.raw) && len(feeManager.raw) == 488
+//@   at call 25 assert internalfees.price(feeManager.raw, 0) == Rules.GetMinUnitPrice(RuleFactory.GetRules(ruleFactory, 0))[0]
+//@   at call 25 assert internalfees.price(feeManager.raw, 1) == Rules.GetMinUnitPrice(RuleFactory.GetRules(ruleFactory, 0))[1]
+//@   at call 25 assert internalfees.price(feeManager.raw, 2) == Rules.GetMinUnitPrice(RuleFactory.GetRules(ruleFactory, 0))[2]
+//@   at call 25 assert internalfees.price(feeManager.raw, 3) == Rules.GetMinUnitPrice(RuleFactory.GetRules(ruleFactory, 0))[3]
+//@   at call 25 assert internalfees.price(feeManager.raw, 4) == Rules.GetMinUnitPrice(RuleFactory.GetRules(ruleFactory, 0))[4]
+//@   at call 31 assert @C11 err == nil ==> sb.Tmstmp == be64(tstate.visVal(tsv, tk), 0)
+//@   ensures err == nil ==> !isnil(result0)
+//@   ensures err == nil ==> !isnil(result0.StatelessBlock)
+//@   ensures err == nil ==> result0.StatelessBlock.Hght == 0
+//@   ensures err == nil ==> result0.StatelessBlock.StateRoot == fst(merkledb.View.GetMerkleRoot(result1))
